@@ -577,7 +577,8 @@ CHECKS = {
          "strings are one representative character per class (delimiters, escapes, markup, non-ASCII, control, a literal %41), length <= 2 (quick: all length-1 "
          "strings and selected pairs); universality over all byte strings is not claimed",
          "redirect URI shapes: plain, with query, query containing '+' and %2B, custom scheme, trailing '?', query containing %26 %3D and UTF-8"],
-        extra=[("relying_party_callbacks", lambda pid, tier, seed, wd: __import__("misc").rp_part(pid, tier, seed, wd, ("C11.",)))]),
+        extra=[("relying_party_callbacks", lambda pid, tier, seed, wd: __import__("misc").rp_part(pid, tier, seed, wd, ("C11.",))),
+               ("closed_loop", lambda pid, tier, seed, wd: __import__("misc").flow_part(pid, tier, seed, wd, ("C11.",)))]),
     "C14": simple_table_check(
         [dict(module="Assertion", sub="tbl-assertion", prefixes=("C14.",), sig=c14a_sig, need=c14a_need, label="JWT assertion table",
               required=["verify:accept", "verify:reject", "bearerP:accept", "bearerL:accept", "codeP:accept", "codeL:accept", "codeP:reject", "codeL:reject"]),
